@@ -63,6 +63,11 @@ class EngineC11:
             shape = [sw.randint(2, 3)] * N  # cubical
         if int(np.prod(shape)) < 2:
             shape[0] = 2
+        long_mode = sw.random() < 0.06
+        if long_mode:
+            # one long mode (row counts beyond 128 / 256 matter to index arithmetic in narrow integer types)
+            shape = [min(s, 3) for s in shape]
+            shape[sw.randrange(N)] = sw.choice([90, 129, 140, 200, 256])
         rank = weighted(sw, [(1, 2), (2, 4), (3, 2)])
         sparse = sw.random() < 0.5
         # count data with structure: empty slices / all-zero fibres
@@ -109,6 +114,9 @@ class EngineC11:
             "printitn": sw.choice([0, 0, 1, 3]),
             "printinneritn": sw.choice([0, 0, 1]),
         }
+        if long_mode:
+            opts["maxiters"] = sw.randint(1, 2)  # keeps the cost of the per-row subproblems of a long mode bounded
+            opts["maxinneriters"] = sw.choice([1, 2])
         if alg == "mu":
             opts["kappa"] = sw.choice([0.01, 0.1, 1e-3])
             opts["kappatol"] = sw.choice([1e-10, 1e-6])
@@ -130,6 +138,8 @@ class EngineC11:
             "x": enc(x),
             "sparse": sparse,
             "sparse_perm_seed": sw.randrange(1000),
+            # type of the stored subscripts of sparse data (the constructor keeps what it is given)
+            "subs_dtype": sw.choice(["int64", "int64", "int64", "int32", "uint16", "uint8"]),
             "rank": rank,
             "guess": None if factors is None else {"weights": weights, "factors": [enc(f) for f in factors]},
             "np_seed": st.u32("np"),
@@ -183,6 +193,9 @@ class EngineC11:
             perm = rs.permutation(subs.shape[0])
             subs = subs[perm]
             vals = x[tuple(subs.T)].reshape(-1, 1).astype(store)
+            sd = init.get("subs_dtype", "int64")
+            if max(x.shape) - 1 <= np.iinfo(sd).max:
+                subs = subs.astype(sd)
 
             def make_data():
                 return ttb.sptensor(subs.copy(), vals.copy(), tuple(x.shape))
